@@ -29,6 +29,7 @@ fn trait_cases() -> Vec<TraitCase> {
         TraitCase { generics: "<'x, T: 'x>", args: "Tr<'x,T>", methods: vec![("f", "fn f(&self, r: &'x T) -> &'x T;", vec!["r"], false)] },
         TraitCase { generics: "", args: "Tr", methods: vec![("f", "fn f(self: &Self, a: i32) -> i32;", vec!["a"], false)] },
         TraitCase { generics: "", args: "Tr", methods: vec![("f", "fn f(&self, a: i32) -> i32;", vec!["a"], false), ("m", "fn m(&mut self, a: i32);", vec!["a"], false)] },
+        TraitCase { generics: "<const N: usize, U, const M: usize>", args: "Tr<N,U,M>", methods: vec![("f", "fn f(&self, a: [U; N]) -> [u8; M];", vec!["a"], false)] },
     ]
 }
 
@@ -63,7 +64,7 @@ fn entrait_t_bounds(im: &syn::ItemImpl) -> Vec<String> {
 }
 
 fn c06(_ctx: &Ctx, r: &mut Report) {
-    r.domain = "7 trait shapes (1..3 methods, same-signature methods, generic trait, generic method, lifetimes, async, `self: &Self`) x delegation selector {default, delegate_by = Self, delegate_by = ref, delegate_by = Borrow} x {plain, async_trait}".into();
+    r.domain = "8 trait shapes (1..3 methods, same-signature methods, generic trait, generic method, lifetimes, async, `self: &Self`) x delegation selector {default, delegate_by = Self, delegate_by = ref, delegate_by = Borrow} x {plain, async_trait}".into();
     r.bound = "exhaustive over the listed shapes".into();
     for tc in trait_cases() {
         for sel in ["", "delegate_by = Self", "delegate_by = ref", "delegate_by = Borrow"] {
@@ -95,6 +96,10 @@ fn c06(_ctx: &Ctx, r: &mut Report) {
                     }
                     let im = ims[0];
                     header_ok(r, &input, im);
+                    let implemented = squash(&im.trait_.as_ref().map(|t| tt_string(&t.1)).unwrap_or_default());
+                    if implemented != squash(tc.args) {
+                        r.fail("trait-arguments", &input, format!("the impl is for `{}`, the trait is `{}`", implemented, squash(tc.args)));
+                    }
                     // where clause: T provides the trait in the selected way
                     let bounds = entrait_t_bounds(im);
                     let targs = squash(tc.args);
